@@ -365,6 +365,18 @@ func ICCCorpus() []CorpusFile {
 		}
 		out = append(out, CorpusFile{Name: fmt.Sprintf("icc%02d:%s", i, f.Truth.Format), Data: f.Bytes(), Fields: f.Truth.Fields, Gen: true})
 	}
+	// two PNGs whose profile inflates to more than 64 KiB (size thresholds of
+	// pooled or block-wise buffers)
+	for i, n := range []int{70000, 100000} {
+		t := tape.New(tape.Mix(0xB16, uint64(i)), nil)
+		p := refmodel.DrawPNG(t, 1, []int{n}, false)
+		for len(p.ICC) < 65537 {
+			p = refmodel.DrawPNG(t, 1, []int{n}, false)
+		}
+		p.BodyLen = 20
+		f := refmodel.BuildPNG(p)
+		out = append(out, CorpusFile{Name: fmt.Sprintf("iccbig%02d:%s", i, f.Truth.Format), Data: f.Bytes(), Fields: f.Truth.Fields, Gen: true})
+	}
 	// six files whose embedded profile is damaged (the loaders' failure paths are
 	// part of what concurrent callers share)
 	for i := 0; i < 6; i++ {
